@@ -6,6 +6,7 @@ Protocol (model name `drange`; instants are microseconds since 0001-01-01, plain
   (drange bump t <hex>)         dt_bump(t, period string) - ties the model's local dt_bump to the real one
 """
 import datetime
+import numpy as np
 from .. import proto
 from ..proto import us2dt, dt2us, hexs, unhex
 from ..engine import Finding, with_timeout, Timeout
@@ -108,6 +109,8 @@ def rand_spec(rng):
         kind, bump = 'int', sgn * n
         if rng.random() < 0.15:
             kind, bump = 'none', None
+        elif rng.random() < 0.3:      # the same integer as a numpy scalar of any width (C10-D1: `(t1-t0).days * np.int8(1)` overflowed beyond 127 days)
+            kind, bump = 'int-np', rng.choice([np.int8, np.int16, np.int32, np.int64])(sgn * n)
         t1 = t0 + sgn * span * DAY
     elif r < 0.30:    # timedelta, any endpoints
         unit = rng.choice([TD(1), TD(1), TD(hours=1), TD(hours=4), TD(minutes=15), TD(seconds=90), TD(days=1, hours=12), TD(microseconds=250000), TD(7)])
@@ -207,6 +210,8 @@ def enc_bump(b):
         return 'N'
     if isinstance(b, int):
         return '(int %d)' % b
+    if isinstance(b, np.integer):      # a numpy integer bump (read from an array): is_int admits np.int8..int64
+        return '(npint %s %d)' % (type(b).__name__, int(b))
     if isinstance(b, TD):
         return '(td %d)' % (b // proto.US)
     return '(p %s)' % hexs(b)
@@ -253,6 +258,8 @@ def dec_bump(x):
         return None
     if x[0] == 'int':
         return int(x[1])
+    if x[0] == 'npint':
+        return getattr(np, x[1])(int(x[2]))
     if x[0] == 'td':
         return TD(microseconds=int(x[1]))
     return unhex(x[1])
@@ -404,8 +411,8 @@ def _laws(rng, tier, ctx):
         # all other kinds: start at t0, repeatedly apply the bump while inside, stop only when the next one is outside
         if bump is None:
             step = lambda t: t + (DAY if up else -DAY)
-        elif isinstance(bump, int):
-            step = lambda t: t + bump * DAY
+        elif isinstance(bump, (int, np.integer)):
+            step = lambda t: t + int(bump) * DAY
         elif isinstance(bump, TD):
             step = lambda t: t + bump
         else:
@@ -418,9 +425,9 @@ def _laws(rng, tier, ctx):
             yield bad('the list is not t0, bump(t0), bump(bump(t0)), ... while inside [t0, t1] (expected %d elements, got %d)' % (len(want), len(res)))
             continue
         # integer n, timedelta(n) and 'nd' give identical lists
-        if kind in ('int', 'single-d') or (kind == 'td' and bump % DAY == TD(0)):
-            n = bump if isinstance(bump, int) else (bump // DAY if isinstance(bump, TD) else int(bump[:-1]))
-            if (t1 - t0) % DAY != TD(0) and kind != 'int':
+        if kind in ('int', 'int-np', 'single-d') or (kind == 'td' and bump % DAY == TD(0)):
+            n = int(bump) if isinstance(bump, (int, np.integer)) else (bump // DAY if isinstance(bump, TD) else int(bump[:-1]))
+            if (t1 - t0) % DAY != TD(0) and kind not in ('int', 'int-np'):
                 # timedelta(n) and 'nd' agree for ANY endpoints (theorem td_str_agree_any; intraday endpoints are inside the quantifier for these)
                 b, c = _call(lambda: drange(t0, t1, n * DAY)), _call(lambda: drange(t0, t1, '%dd' % n))
                 count += 1
